@@ -571,3 +571,39 @@ func sameFileRule(R string) RuleFunc {
 		}
 	}
 }
+
+// annoEndRule: all the ways an inline annotation ends at a line end behave alike.
+func annoEndRule(R string) RuleFunc {
+	return func(c *core.Ctx) {
+		c.Rule(R, "sibling consistency on the per-byte model of the schema scanner: every state whose LF row closes an inline annotation (emits InlineAnnotationEnd and NewLine) installs the same kind of successor - the guard closure that refuses an annotation start at the beginning of the following line (`... after inline annotation`) - and never pops straight back into the state that was active before the annotation. Otherwise a second `// note` line is accepted after `// {rules}` with LF line ends but refused with CRLF (the second line-end byte moves the popped state on), with a blank line in between, or after `// {rules} - note`")
+		c.Floor(R, 3)
+		m := buildScanModel(c, "notations/jschema/scanner")
+		n := 0
+		for _, name := range m.names {
+			for _, p := range m.rows[name]['\n'].paths {
+				if p.kind != "return" {
+					continue
+				}
+				end, nl := false, false
+				for _, f := range p.finds {
+					if f == "InlineAnnotationEnd" {
+						end = true
+					}
+					if f == "NewLine" {
+						nl = true
+					}
+				}
+				if !end || !nl {
+					continue
+				}
+				n++
+				ok := strings.Contains(p.next, "$")
+				c.Check(ok, R, core.F("%s:LF#%d", name, n), c.P.Pos(m.states[name].Pos()), "state "+name+": the line end that closes an inline annotation installs the next-line guard ("+p.next+")", "this way of ending an inline annotation goes straight back to the interrupted state ("+p.next+"): an annotation on the next line is accepted here but refused after the sibling endings and under CRLF")
+				break
+			}
+		}
+		if n == 0 {
+			c.Bad(R, "states", "-", "states closing an inline annotation at a line end", "undecided: none found")
+		}
+	}
+}
